@@ -753,22 +753,33 @@ def work_obs(job):
     return rec
 
 
-def work_pole_below_threshold(seed):
-    """Boundary of C09, measured and reported as a note (never a verdict): a pole mass below
-    the threshold of one of its channels, s above every threshold."""
+def work_obs_below(job):
+    """Observation with a pole mass below the threshold of channel 1 (n_channels = 2), s above
+    every threshold.  job = (n_poles, L, d, phase-space class, seed, fixed): fixed = the
+    reference point m_R = 1.5, m_a[1] = m_b[1] = 0.9, s = 5; otherwise seeded around it."""
+    np_, L, d, Xn, seed, fixed = job
     rng = random.Random(seed)
-    out = []
-    for Xn, L in (("PhaseSpaceFactor", 0), ("PhaseSpaceFactor", 1), ("PhaseSpaceFactorAbs", 0), ("PhaseSpaceFactorAbs", 1)):
-        pt = Point(rng, 2, 1)
-        pt.m_a[1] = pt.m_b[1] = sp.Rational(9, 10)
-        pt.m = [sp.Rational(3, 2)]
-        pt.s = sp.Integer(5)
-        try:
-            u, sy = unitarity_residuals(num_matrix(formulate("RelK", 2, 1, False, L, 1, Xn), pt))
-            out.append(f"{Xn} L={L}: unitarity residual {float(u):.3g}, symmetry {float(sy):.3g}")
-        except (KeyError, TypeError, ValueError, ZeroDivisionError) as e:
-            out.append(f"{Xn} L={L}: {type(e).__name__}")
-    return out
+    q = lambda lo, hi: sp.Rational(rng.randint(int(lo * 1000), int(hi * 1000)), 1000)  # noqa: E731
+    pt = Point(rng, 2, np_)
+    heavy = sp.Rational(9, 10) if fixed else q(0.88, 1.0)
+    pt.m_a[1] = pt.m_b[1] = heavy                                 # threshold of channel 1 >= 1.76
+    pt.m = [sp.Rational(3, 2) if fixed else q(1.2, 1.7)]          # above channel 0 (<= 1.1), below channel 1
+    pt.m += [sp.Rational(13, 5) + sp.Rational(k, 4) for k in range(np_ - 1)]   # further poles above every threshold
+    pt.s = sp.Integer(5) if fixed else q(4.2, 6.0)
+    thr = min(1 - (a + b) ** 2 / pt.s for a, b in zip(pt.m_a, pt.m_b))
+    pole = min(abs(pt.s - mm**2) / pt.s for mm in pt.m)
+    mbelow = max((a + b - mm) / mm for mm in pt.m for a, b in zip(pt.m_a, pt.m_b))
+    f = lambda x: max(-(2**30), min(2**30, int(sp.floor(x * 10**6))))  # noqa: E731
+    rec = {"k": "obsb", "cls": "RelK", "n": 2, "np": np_, "L": L, "d": d, "X": Xn, "thr": f(thr), "pole": f(pole), "mbelow": f(mbelow),
+           "uq": 0, "sq": 0, "finite": 1, "_pt": pt.describe(), "_job": list(job)}
+    try:
+        u, sy = unitarity_residuals(num_matrix(formulate("RelK", 2, np_, False, L, d, Xn), pt))
+        rec["uq"], rec["sq"] = quant(u), quant(sy)
+        rec["_u"], rec["_s"] = float(u), float(sy)
+    except (KeyError, TypeError, ValueError, ZeroDivisionError) as e:
+        rec["finite"] = 0
+        rec["_err"] = f"{type(e).__name__}: {e}"[:200]
+    return rec
 
 
 def strip(rec):
